@@ -685,11 +685,28 @@ def weak_constants(table):
     env = sel("helping.rs", "env", "load") + sel("helping.rs", "env", "store") + sel("helping.rs", "space", "store")
     hl = sel("helping.rs", "ctrl", "load") + sel("helping.rs", "space", "load")
     if len(ctrl) < 3 or len(hs) != 1 or not env or not hl:
-        return (fast, None), "helping sites not all observed (%d control accesses, %d slot swaps, %d envelope accesses, %d helper loads)" % (len(ctrl), len(hs), len(env), len(hl))
+        return (fast, None, _node_constants(sel)), "helping sites not all observed (%d control accesses, %d slot swaps, %d envelope accesses, %d helper loads)" % (len(ctrl), len(hs), len(env), len(hl))
     cords = [r[4] for r in ctrl] + [r[5] for r in ctrl if r[3] == "cas"]
     helpc = {"OrdCand": _meet([stl[2][4]]), "OrdCtrl": _meet(cords), "OrdHslot": _meet([hs[0][4]]), "OrdEnv": _meet([r[4] for r in env]),
              "OrdStSwap": fast["OrdStSwap"], "OrdPayOk": pay_ok, "OrdPayFail": pay_fail, "OrdPayOkW": payw_ok, "OrdPayFailW": payw_fail, "OrdHelpLoad": _meet([r[4] for r in hl])}
-    return (fast, helpc), ""
+    return (fast, helpc, _node_constants(sel)), ""
+
+
+def _node_constants(sel):
+    """constants of spec/WeakNode.tla (hand-over of a debt node between threads) from the sites of debt/list.rs and debt/fast.rs"""
+    cool = sel("list.rs", "inuse", "swap")
+    cload = sel("list.rs", "inuse", "load")
+    wl, wa, ws = sel("list.rs", "wr", "load"), sel("list.rs", "wr", "add"), sel("list.rs", "wr", "sub")
+    cas = sel("list.rs", "inuse", "cas")
+    unc = [r for r in cas if _enclosing_fn("src/debt/list.rs", r[1]) == "check_cooldown"]
+    claim = [r for r in cas if r not in unc]
+    probe, sw = sel("fast.rs", "fast", "load"), sel("fast.rs", "fast", "swap")
+    if not (cool and cload and wl and wa and ws and unc and claim and probe and sw):
+        return None
+    return {"OrdSlotSwap": _meet([r[4] for r in sw]), "OrdProbe": _meet([r[4] for r in probe]), "OrdCool": _meet([r[4] for r in cool]),
+            "OrdCoolLoad": _meet([r[4] for r in cload]), "OrdWrLoad": _meet([r[4] for r in wl]), "OrdWrAdd": _meet([r[4] for r in wa]),
+            "OrdWrSub": _meet([r[4] for r in ws]), "OrdUncoolOk": _meet([r[4] for r in unc]), "OrdUncoolFail": _meet([r[5] for r in unc]),
+            "OrdClaimOk": _meet([r[4] for r in claim]), "OrdClaimFail": _meet([r[5] for r in claim])}
 
 
 def weak_stage(tier, seed, key, P):
@@ -705,10 +722,10 @@ def weak_stage(tier, seed, key, P):
     states = trans = 0
     runs = []
     if consts is not None:
-        for spec, cs, nsw in (("WeakFast.tla", consts[0], 3), ("WeakHelp.tla", consts[1], 2)):
+        for spec, cs, nsw in (("WeakFast.tla", consts[0], 3), ("WeakHelp.tla", consts[1], 2), ("WeakNode.tla", consts[2] if len(consts) > 2 else None, 0)):
             if cs is None:
                 continue
-            cfg = "SPECIFICATION Spec\nCONSTANTS StrictSC = TRUE\n NSwaps = %d\n" % nsw + "".join(' %s = "%s"\n' % kv for kv in cs.items()) + "INVARIANT Safe\nCHECK_DEADLOCK FALSE\n"
+            cfg = "SPECIFICATION Spec\nCONSTANTS StrictSC = TRUE\n" + (" NSwaps = %d\n" % nsw if nsw else "") + "".join(' %s = "%s"\n' % kv for kv in cs.items()) + "INVARIANT Safe\nCHECK_DEADLOCK FALSE\n"
             name = os.path.join(P.SPEC, "_weak_%d.cfg" % os.getpid())
             open(name, "w").write(cfg)
             try:
@@ -725,12 +742,13 @@ def weak_stage(tier, seed, key, P):
                     raise P.ToolError("weak-memory model checking failed:\n" + o[-1500:])
                 errs = re.findall(r'err = "([\w-]+)"', o)
                 kind = [e for e in errs if e != "ok"][-1] if errs else "?"
-                prop = "C01" if kind.startswith("uaf") else "C07"
+                prop = "C01+C10" if kind == "debt-overwritten" else "C01" if kind.startswith("uaf") else "C07"
                 os.makedirs(P.REPLAYS, exist_ok=True)
-                rp = os.path.join(P.REPLAYS, "%s-weak-%s.json" % (prop, P.hashlib.sha256(json.dumps(cs, sort_keys=True).encode()).hexdigest()[:10]))
+                rp = os.path.join(P.REPLAYS, "%s-weak-%s.json" % (prop.replace("+", "_"), P.hashlib.sha256(json.dumps(cs, sort_keys=True).encode()).hexdigest()[:10]))
                 json.dump({"kind": "weak-model", "spec": spec, "constants": cs, "nswaps": nsw, "error": kind, "ordering_table": table,
                            "counterexample": o[-20000:]}, open(rp, "w"))
                 text = {"C01": "a value is used after destruction in an execution permitted by the orderings the code requests (%s)" % kind,
+                        "C01+C10": "the debt of a live guard is overwritten by the thread that re-claims its node, in an execution permitted by the orderings the code requests (%s): the guard loses its protection" % kind,
                         "C07": "a data race on the pointee is permitted by the orderings the code requests (%s)" % kind}[prop]
                 out["viols"].append({"id": 0, "prop": prop, "why": text + " [TLC counterexample of %s under the ordering table extracted from the code]" % spec,
                                      "spec": spec, "ev": {"constants": cs}, "fam": "weak-model", "key": "%s/weak/%s/%s" % (prop, spec, kind), "replay": rp})
@@ -756,6 +774,7 @@ def c01_extra(tier, seed, key, P):
 
 EXTRA["C07"] = c07_stage
 EXTRA["C01"] = c01_extra
+EXTRA["C10"] = c01_extra
 PROPS["C07"]["level"] = "model_checking"
 PROPS["C07"]["assumptions"] = PROPS["C07"]["assumptions"] + [
     "weak-memory clause: spec/WeakFast.tla and WeakHelp.tla (view-based, stale reads, SeqCst in the ISO C++20 reading: StrictSC = TRUE, DESIGN section 4) are model-checked with the ordering table extracted from the real code; a counterexample there is reported although it cannot be executed on this hardware (found F7, F8)"]
